@@ -43,6 +43,29 @@ pub fn run(ctx: &Ctx) -> Outcome {
         acc.merge(a5);
         describe.push_str(&format!("; plus {} seeded patterns with 3-8 groups inside a counted loop next to an assertion, a failing tail and a fallback alternative x 18 texts of 1-3 repetitions of the loop's text", fam.len()));
     }
+    // case-insensitive scopes: the reference runs on the same tree with every letter spelled out
+    // as the class of its case orbit (k K KELVIN SIGN, s S LONG S, ..)
+    {
+        use crate::ast::{Mode, Node, Node::*, A};
+        let fold_atoms = vec![Node::lit("k"), Node::lit("s"), Node::lit("\u{17f}"), Node::lit("ks"), Flags("".into(), "i".into(), Some(Box::new(Node::lit("k")))), Any(false), Assert(A::WordB)];
+        let mut g2 = crate::gen::Gen::with_atoms(fold_atoms, vec![(0, Some(1), Mode::Greedy), (1, None, Mode::Lazy), (2, Some(2), Mode::Greedy)], false, true);
+        let fillers = g2.upto(2);
+        let texts = crate::gen::texts(&["k", "K", "\u{212a}", "s", "\u{17f}", "-"], 3);
+        let mut items = vec![];
+        for p in crate::gen::products(&fillers).into_iter().chain(g2.upto(3)) {
+            if !p.refs_exist() || diff::default_exclude(&p).is_some() {
+                continue;
+            }
+            let wrapped = Flags("i".into(), "".into(), Some(Box::new(p)));
+            if let Some(d) = crate::c14::desugar(&wrapped, false) {
+                items.push(diff::PairItem { pattern: wrapped, reference: Some(d), texts: texts.clone(), all_offsets: true });
+            }
+        }
+        let a6 = diff::run_items(ctx, "C01", &items, false, crate::refm::BUDGET);
+        acc.add("case-fold-evaluations", a6.evals);
+        acc.merge(a6);
+        describe.push_str(&format!("; plus {} patterns (?i:P), P from context products and trees of <= 3 nodes over k s LONG-S ks (?-i:k) . \\b, judged against the reference run on P with every letter replaced by the class of its case orbit, x all texts over k K KELVIN-SIGN s LONG-S - up to length 3, every offset", items.len()));
+    }
     diff::run_witnesses(ctx, "C01", "F1", &mut acc);
     let mut out = Outcome::new(acc);
     out.distinct_nontrivial = out.acc.distinct;
